@@ -66,6 +66,15 @@ struct Case {
     kind: usize,
 }
 
+/// One receive; a pending receive may be abandoned (world's cancel plan) and is then started over.
+async fn recv_retrying(world: &World, conn: &mut Connection<crate::world::SimSocket>, kind: usize) -> Res {
+    loop {
+        if let Some(r) = crate::world::cancellable(world, frames::recv_kind(conn, kind)).await {
+            return r;
+        }
+    }
+}
+
 fn sized_frame(kind: usize, n: usize) -> Vec<u8> {
     let base = frames::valid_frame(kind, 0, 0, 3).len();
     let f = frames::valid_frame(kind, 0, n.saturating_sub(base), 3);
@@ -122,6 +131,14 @@ impl Prop for Bounded {
                 };
                 let warmup = t.draw(3);
                 let kind = [0usize, 5][t.draw(2)];
+                // one seeded run in three: pending receives are abandoned and started over (the
+                // limit must hold for the frame, not per receive attempt)
+                let cancel = match t.draw(6) {
+                    0 => crate::world::CancelPlan::Prob(1, 2),
+                    1 => crate::world::CancelPlan::EveryKth(1 + t.draw(4)),
+                    _ => crate::world::CancelPlan::Never,
+                };
+                w.cancel = cancel;
                 w.cfg = cfg;
                 (Case { limit, dir, n: n.max(80), warmup, kind }, "seeded".to_string())
             }
@@ -174,7 +191,7 @@ impl Prop for Bounded {
                     let lens: Vec<usize> = fr.iter().map(|f| f.len() + 1).collect();
                     ex.spawn(async move {
                         for i in 0..count + runaway as usize {
-                            let r = frames::recv_kind(&mut conn, kind).await;
+                            let r = recv_retrying(&world2, &mut conn, kind).await;
                             if i < count && matches!(r, Res::Ok(_)) {
                                 world2.borrow_mut().pipes[rd].consumed_by_app += lens[i];
                             }
@@ -260,7 +277,7 @@ impl Prop for Bounded {
                     let count = case.warmup + 1;
                     ex.spawn(async move {
                         for _ in 0..count {
-                            let r = frames::recv_kind(&mut conn, kind).await;
+                            let r = recv_retrying(&world2, &mut conn, kind).await;
                             let mut w = world2.borrow_mut();
                             ra.borrow_mut().push(w.pipes[rd].total_read);
                             if matches!(r, Res::Ok(_)) {
